@@ -30,6 +30,29 @@ def make_replay(pid, unit, failure, seed):
     return path, found
 
 
+def make_standin_replay(pid, unit, reasons, seed):
+    """Bounded stand-in for a unit the verifier could not take: search the real code with the oracles that speak for `pid`."""
+    d = os.path.join(WORK, 'replay')
+    os.makedirs(d, exist_ok=True)
+    path = os.path.join(d, f'{pid}-{unit}.bounded-stand-in.json')
+    rec = {'property': pid, 'unit': unit, 'obligation': f'{pid}.{unit}.bounded-stand-in', 'kind': 'bounded stand-in (not a proof obligation)',
+           'source': None, 'decided_by': 'bounded search on the real code; the verifier could not take the changed function(s): ' + ' | '.join(reasons)[:1500],
+           'bound': 'the finite alphabets / histories of driver/witness.py (DESIGN.md section 6)', 'verifier_output': '\n'.join(reasons), 'labels': [], 'witness': None}
+    found = False
+    try:
+        from driver import witness
+        w = witness.search_standin(pid, unit)
+        if w:
+            rec['witness'] = w
+            found = True
+    except Exception as e:
+        rec['witness_search_error'] = f'{type(e).__name__}: {e}'
+    if found:
+        with open(path, 'w', encoding='utf-8') as f:
+            json.dump(rec, f, indent=1)
+    return path, found
+
+
 def expected_shared_file(types):
     """The file C05 demands for a set of types sharing one file: notice, blank line, every type's own chunk (what exporting it
     alone writes after the notice) exactly once, in name order."""
